@@ -14,7 +14,7 @@
       although 10% of the capacity is 1 (witness for the "lowerBound dropped"
       mutation family). *)
 From Coq Require Import List ZArith QArith Bool.
-From GZ Require Import Lib.RollingWindow C02.Model C02.Proofs C02.ProofsHist C02.Wrap C02.Conc.
+From GZ Require Import Lib.RollingWindow C02.Model C02.Proofs C02.ProofsHist C02.Wrap C02.Conc C02.World C02.Check.
 Import ListNotations.
 Open Scope Z_scope.
 
@@ -350,3 +350,82 @@ Theorem try_lock_drops_samples_refuted :
    option_map tres (nth_error (snd m') 100) = Some (Some RShed) /\
    (10 < avgFlying (fst m'))%Q /\ flying (fst m') = 20).
 Proof. vm_compute. repeat split; reflexivity. Qed.
+
+(* ------------------------------------------------------------------ *)
+(* 10. seeded C02-8: shouldDrop returns early when nothing is in flight ("highThru cannot hold"): every single verdict
+      is the same given the same state, but the early return also skips stillHot(), which is where a finished cool-off
+      resets droppedRecently.  Under strictly sequential idle traffic the shedding episode is never closed; a later CPU
+      spike that sheds nothing re-arms the cool-off, and for a second requests are shed under a cool CPU although no
+      shedding was in progress ([episode], C02/ProofsEpisode.v) - the real Allow lets the same request in. *)
+Definition step_fp (s : state) (o : op) : state * res :=
+  let '(s', r) := match o with
+                  | OAllow now c1 c2 => if flying s =? 0 then allow_finish s now false else allow s now c1 c2
+                  | OPass id now => pass s id now
+                  | OFail id => fail s id
+                  end in (bump s', r).
+
+Definition sec : Z := 1000000000.
+Definition fails (from n : nat) : list op := map (fun i => OFail (Z.of_nat i)) (seq from n).
+Definition hist_fp : list op :=
+  repeat (OAllow B 0 0) 20 ++ fails 0 10                                      (* 0..29: 10 in flight, average ~ 8.9 *)
+  ++ [OAllow (B + 1) 1000 1000]                                               (* 30: shed - the episode starts *)
+  ++ fails 10 10                                                              (* 31..40: drained *)
+  ++ [OAllow (B + 1 + sec) 0 0; OPass 41 (B + 1 + sec + ms)]                  (* 41, 42: idle, cool, the cool-off is over *)
+  ++ concat (map (fun j => [OAllow (B + 2 * sec + Z.of_nat j) 0 0; OFail (Z.of_nat (43 + 2 * j))]) (seq 0 60))
+                                                                              (* 43..162: the average decays *)
+  ++ [OAllow (B + 4 * sec) 0 0; OAllow (B + 4 * sec) 1000 1000]               (* 163, 164: a spike that sheds nothing *)
+  ++ repeat (OAllow (B + 4 * sec + 1) 0 0) 20 ++ fails 165 10                 (* 165..194: 12 in flight, average ~ 10 *)
+  ++ [OAllow (B + 4 * sec + 500 * ms) 0 0].                                   (* 195: cool CPU, 0.5 s after the spike *)
+
+Theorem fast_path_keeps_episode_open_refuted :
+  exists c t0 ops k now c1 c2,
+    cenabled c = true /\ nth_error ops k = Some (OAllow now c1 c2) /\
+    nth_error (run_by step_fp (init c t0) ops) k = Some RShed /\
+    hot_ref (cthreshold c)
+            (episode (cthreshold c) (0, false) (firstn k ops) (firstn k (run_by step_fp (init c t0) ops))) now c1 = false /\
+    (* the real Allow lets the same request in after the same history *)
+    nth_error (run (init c t0) ops) k = Some RAdmit.
+Proof.
+  exists default_config, B, hist_fp, 195%nat, (B + 4 * sec + 500 * ms), 0, 0.
+  vm_compute. repeat split; reflexivity.
+Qed.
+
+(* ------------------------------------------------------------------ *)
+(* 11. seeded C02-10: ShedderGroup decides "nop or adaptive" once, in NewShedderGroup, instead of leaving it to
+      NewAdaptiveShedder at the first GetShedder of a key.  load.Disable() called after NewShedderGroup and before the
+      first GetShedder then yields a live adaptive member: a shedder built after Disable() sheds
+      (Props.disabled_never_sheds_wherever_disable_stands is the statement this variant violates). *)
+Definition wstep_early (wf : world * list bool) (e : wev) : (world * list bool) * wres :=
+  let '(w, fl) := wf in
+  match e with
+  | XGroup o => ((fst (wstep w e), fl ++ [negb (wdisabled w)]), YNone)
+  | XGet g key t0 =>
+    (* the member is built with the flag the group saw when it was made *)
+    let '(w', r) := wstep (mkW (negb (nth g fl true)) (wshedders w) (wcerts w) (wgroups w)) e in
+    ((mkW (wdisabled w) (wshedders w') (wcerts w') (wgroups w'), fl), r)
+  | _ => let '(w', r) := wstep w e in ((w', fl), r)
+  end.
+
+Fixpoint wrun_early (wf : world * list bool) (evs : list wev) : list wres :=
+  match evs with
+  | [] => []
+  | e :: evs' => snd (wstep_early wf e) :: wrun_early (fst (wstep_early wf e)) evs'
+  end.
+
+Definition hist_early : list wev :=
+  [XGroup (mkOpts 2000000000 4 500); XDisable; XGet 0 7 B]
+  ++ repeat (XOp 0 (OAllow (B + 1) 1000 1000)) 20 ++ map (fun i => XOp 0 (OFail (Z.of_nat i))) (seq 0 10)
+  ++ [XOp 0 (OAllow (B + 2) 1000 1000)].
+
+Theorem group_decides_at_construction_sheds_after_disable_refuted :
+  exists evs i p k m o,
+    nth_error evs i = Some XDisable /\ (i < p)%nat /\
+    nth_error (wrun_early (w0, []) evs) p = Some (YMade k) /\
+    nth_error evs m = Some (XOp k o) /\
+    nth_error (wrun_early (w0, []) evs) m = Some (YRes RShed) /\
+    (* the real order of decisions: the same events, the member is a nopShedder, the request is let in *)
+    nth_error (wrun w0 evs) m = Some (YRes RAdmit).
+Proof.
+  exists hist_early, 1%nat, 2%nat, 0%nat, 33%nat, (OAllow (B + 2) 1000 1000).
+  vm_compute. repeat split; reflexivity.
+Qed.
